@@ -5,6 +5,15 @@ export GO=${GO:-/opt/veriftools/go1.26.8/bin/go}
 VERIF_DIR=$(cd "$(dirname "${BASH_SOURCE[0]}")" && pwd)
 VERIF_REPO=${VERIF_REPO:-/repo}
 BUILD=$VERIF_DIR/.build
+# a check pointed at another tree (VERIF_REPO=<scratch copy>, sensitivity runs) gets its own module
+# file, binaries, evidence and replays, so that it can run beside checks of /repo
+if [ "$VERIF_REPO" = /repo ]; then
+  MODF=$VERIF_DIR/harness/go.mod; BIN=$BUILD/bin; OUT=$VERIF_DIR
+else
+  ALT=$BUILD/alt-$(echo "$VERIF_REPO" | cksum | cut -d' ' -f1)
+  MODF=$ALT/go.mod; BIN=$ALT/bin; OUT=$ALT/out
+  mkdir -p "$ALT" "$OUT"
+fi
 MODCACHE=$($GO env GOMODCACHE)
 
 prep_quic() {
@@ -26,7 +35,7 @@ prep_quic() {
 
 gen_gomod() {
   # harness go.mod = /repo/go.mod (same require/replace) + replaces; regenerated at every build
-  local out=$VERIF_DIR/harness/go.mod
+  local out=$MODF
   {
     echo "module verifharness"; echo; echo "go 1.26.8"; echo
     sed -e '/^module /d' -e '/^go [0-9]/d' -e '/^toolchain /d' "$VERIF_REPO/go.mod"
@@ -39,6 +48,9 @@ gen_gomod() {
   } > "$out.tmp"
   cmp -s "$out.tmp" "$out" 2>/dev/null && rm "$out.tmp" || mv "$out.tmp" "$out"
   # go.sum: repo's + porcupine
-  { cat "$VERIF_REPO/go.sum"; cat "$VERIF_DIR/patches/extra.go.sum"; } > "$VERIF_DIR/harness/go.sum.tmp"
-  cmp -s "$VERIF_DIR/harness/go.sum.tmp" "$VERIF_DIR/harness/go.sum" 2>/dev/null && rm "$VERIF_DIR/harness/go.sum.tmp" || mv "$VERIF_DIR/harness/go.sum.tmp" "$VERIF_DIR/harness/go.sum"
+  local sum=${MODF%.mod}.sum
+  { cat "$VERIF_REPO/go.sum"; cat "$VERIF_DIR/patches/extra.go.sum"; } > "$sum.tmp"
+  cmp -s "$sum.tmp" "$sum" 2>/dev/null && rm "$sum.tmp" || mv "$sum.tmp" "$sum"
+  # -modfile still needs a go.mod in the module root to find the root
+  [ -f "$VERIF_DIR/harness/go.mod" ] || { cp "$MODF" "$VERIF_DIR/harness/go.mod"; cp "$sum" "$VERIF_DIR/harness/go.sum"; }
 }
